@@ -558,7 +558,15 @@ def _role(world, rel, generic=True):
     elif newn and name in (f".tmp.{newn}", f".tmp.PID.{newn}"):
         role = "tmp"
     elif name.startswith(".tmp."):
-        role = "tmp2:" + re.sub(r"[^A-Za-z.]+", "", name.replace(oldn or "\0", "OLD").replace(newn or "\0", "NEW"))
+        # some other hidden name derived from the affected entries
+        if oldn and newn and oldn == newn and name.endswith(oldn):
+            role = "hidden-pkg"
+        elif oldn and name.endswith(oldn):
+            role = "hidden-old"
+        elif newn and name.endswith(newn):
+            role = "hidden-new"
+        else:
+            role = "hidden-other"
     else:
         role = "bystander"
     if len(parts) > 3:
@@ -621,9 +629,12 @@ def _shape(sc):
 
 def prepare(ctx, sc):
     """build the world, take pre/post observations, event log. returns (world, obs_old, obs_new, events) or None"""
-    world = World(ctx.fresh_dir("w"), sc)
-    sc = world.sc
     case0 = {"scenario": _public(sc)}
+    # the binpkg pre-state is produced with pkgcore's own install: a failure in there is a finding, not a harness error
+    world = core.guarded(ctx, case0, lambda: World(ctx.fresh_dir("w"), sc))
+    if core.crashed(world):
+        return None
+    sc = world.sc
     obs_old = observe(world)
     res = crash.dry_run(world.operation, [world.live])
     if res.status != "completed":
@@ -633,10 +644,13 @@ def prepare(ctx, sc):
     obs_new = observe(world)
     for kind, msg in check_completed(world, obs_old, obs_new):
         if kind == "harness":
-            raise core.HarnessError(msg)
+            if sc["repo"] == "vdb":
+                raise core.HarnessError(msg)  # hand-written pre-state
+            kind = "pre-state"
         ctx.violation(f"{sc['repo']}:{sc['op']}:completed-run:{kind}", case0, msg)
     if obs_old == obs_new:
-        raise core.HarnessError("scenario without observable effect")
+        ctx.violation(f"{sc['repo']}:{sc['op']}:completed-run:no-effect", case0, "the operation completed without any observable effect")
+        return None
     return world, obs_old, obs_new, res.events
 
 
@@ -656,7 +670,7 @@ def run_point(ctx, world, obs_old, obs_new, events, k, mode, record=True):
     if res.status == "died":
         raise core.HarnessError(f"child died (code {res.code}) at {sig} {mode}")
     fired = res.status in ("crashed", "raised") or (mode == "eio" and res.status == "completed" and len(res.events) >= k)
-    if res.status == "not-reached" or not fired:
+    if res.status == "not-reached" or not fired or len(res.events) < k:
         ctx.count("point_not_reached")
         return None
     # the child must have followed the dry-run log up to the injection point
@@ -730,7 +744,10 @@ def warm_up(ctx, repo):
               "needed": repo == "vdb", "relation": "same", "driver": "staged"}
         w = World(ctx.fresh_dir("warm"), sc)
         observe(w)
-        w.operation()
+        try:
+            w.operation()
+        except Exception:  # noqa: BLE001 - warm-up only loads code; outcomes are judged in run_scenario
+            pass
         observe(w)
         shutil.rmtree(w.top, ignore_errors=True)
 
